@@ -22,3 +22,349 @@ Proof.
     assert (HP : 0 < P) by (apply Z.pow_pos_nonneg; lia).
     rewrite Z.rem_mul_r by lia. reflexivity.
 Qed.
+
+Lemma le_bytes_app_rest n u rest : take n (le_bytes n u ++ rest) = Some (le_bytes n u, rest).
+Proof.
+  revert u; induction n as [|n IH]; intros u; cbn [le_bytes take app]; [reflexivity|].
+  now rewrite IH.
+Qed.
+
+Lemma take_app (v rest : bytes) : take (length v) (v ++ rest) = Some (v, rest).
+Proof. induction v as [|b v IH]; cbn [take length app]; [reflexivity | now rewrite IH]. Qed.
+
+(* ---------------------------------------------------------------- uint_length / int_length *)
+
+Lemma nbytes_bound fuel u : 0 <= u < 256 ^ Z.of_nat fuel -> u < 256 ^ Z.of_nat (nbytes fuel u).
+Proof.
+  revert u; induction fuel as [|f IH]; intros u Hu.
+  - cbn in *. lia.
+  - cbn [nbytes]. destruct (Z.eqb_spec u 0) as [->|Hnz]; [cbn; lia|].
+    rewrite Nat2Z.inj_succ, Z.pow_succ_r in * by lia.
+    assert (H : u / 256 < 256 ^ Z.of_nat (nbytes f (u / 256))).
+    { apply IH. split; [apply Z.div_pos; lia | apply Z.div_lt_upper_bound; lia]. }
+    lia.
+Qed.
+
+Lemma nbytes_le fuel u : (nbytes fuel u <= fuel)%nat.
+Proof. revert u; induction fuel as [|f IH]; intros u; cbn [nbytes]; [lia|]. destruct (u =? 0); [lia | specialize (IH (u / 256)); lia]. Qed.
+
+Lemma nbytes_pos fuel u : 0 < u -> (0 < fuel)%nat -> (0 < nbytes fuel u)%nat.
+Proof. intros Hu Hf. destruct fuel; [lia|]. cbn [nbytes]. destruct (Z.eqb_spec u 0); lia. Qed.
+
+Definition in_u64 (u : Z) : Prop := 0 <= u < 2 ^ 64.
+Definition in_s64 (i : Z) : Prop := - 2 ^ 63 <= i < 2 ^ 63.
+
+Lemma pow256_8 : 256 ^ Z.of_nat 8 = 2 ^ 64. Proof. reflexivity. Qed.
+
+Lemma le_val_nbytes u : in_u64 u -> le_val (le_bytes (nbytes 8 u) u) = u.
+Proof.
+  intros [H0 H1]. rewrite le_val_le_bytes by lia. apply Z.mod_small. split; [lia|].
+  apply nbytes_bound. rewrite pow256_8. lia.
+Qed.
+
+Lemma le_val_more n u : in_u64 u -> (nbytes 8 u <= n)%nat -> le_val (le_bytes n u) = u.
+Proof.
+  intros Hu Hn. rewrite le_val_le_bytes by (destruct Hu; lia). apply Z.mod_small. destruct Hu as [H0 H1]. split; [lia|].
+  eapply Z.lt_le_trans; [apply nbytes_bound; rewrite pow256_8; lia|].
+  apply Z.pow_le_mono_r; lia.
+Qed.
+
+(* ---------------------------------------------------------------- read_token (enc_tok b ++ rest) *)
+
+Ltac fam_cases nb H :=
+  let E := fresh "E" in
+  assert (E : (nb = 1 \/ nb = 2 \/ nb = 3 \/ nb = 4 \/ nb = 5 \/ nb = 6 \/ nb = 7 \/ nb = 8)%nat) by lia;
+  clear H; repeat (destruct E as [E|E]); subst nb.
+
+Ltac fam_cases4 nb H :=
+  let E := fresh "E" in
+  assert (E : (nb = 1 \/ nb = 2 \/ nb = 3 \/ nb = 4)%nat) by lia;
+  clear H; repeat (destruct E as [E|E]); subst nb.
+
+Ltac dec_fam := unfold dec_tok, dec_multi; cbn -[le_bytes le_val take]; rewrite le_bytes_app_rest; reflexivity.
+
+Lemma dec_tok_U nb v rest : (1 <= nb <= 8)%nat ->
+  dec_tok (tagn TAG_U1 nb :: le_bytes nb v ++ rest) = Some (BU (le_val (le_bytes nb v)), rest).
+Proof. intros H. fam_cases nb H; dec_fam. Qed.
+
+Lemma dec_tok_I nb v rest : (1 <= nb <= 8)%nat ->
+  dec_tok (tagn TAG_I1 nb :: le_bytes nb v ++ rest) = Some (BI (s64 (le_val (le_bytes nb v))), rest).
+Proof. intros H. fam_cases nb H; dec_fam. Qed.
+
+Lemma dec_tok_idx base mk nb v rest :
+  (base = TAG_REG1 /\ mk = BReg) \/ (base = TAG_NAME1 /\ mk = BName) \/ (base = TAG_STR1 /\ mk = BStr)
+  \/ (base = TAG_LAB1 /\ mk = BLab) ->
+  (1 <= nb <= 4)%nat ->
+  dec_tok (tagn base nb :: le_bytes nb v ++ rest) = Some (mk (le_val (le_bytes nb v)), rest).
+Proof.
+  intros Hb H. destruct Hb as [[-> ->]|[[-> ->]|[[-> ->]|[-> ->]]]]; fam_cases4 nb H; dec_fam.
+Qed.
+
+Lemma uint_length_range u : in_u64 u -> (uint_length u <= 8)%nat.
+Proof. intros _. unfold uint_length. destruct (u <=? 127); [lia | apply nbytes_le]. Qed.
+
+Lemma dec_enc_uint u rest : in_u64 u -> dec_tok (enc_uint u ++ rest) = Some (BU u, rest).
+Proof.
+  intros Hu. unfold enc_uint. destruct (uint_length u) as [|k] eqn:E.
+  - unfold uint_length in E. destruct (Z.leb_spec u 127) as [Hs|Hl].
+    + cbn [app]. unfold dec_tok.
+      assert (Hc : N.leb U0_FLAG (Z.to_N (128 + u)) = true).
+      { apply N.leb_le. unfold U0_FLAG. destruct Hu. lia. }
+      rewrite Hc. f_equal. f_equal. f_equal. unfold U0_FLAG. destruct Hu. lia.
+    + exfalso. destruct Hu. pose proof (nbytes_pos 8 u ltac:(lia) ltac:(lia)). lia.
+  - cbn [app]. rewrite <- E.
+    assert (Hr : (1 <= uint_length u <= 8)%nat) by (pose proof (uint_length_range u Hu); lia).
+    rewrite dec_tok_U by exact Hr. f_equal. f_equal. f_equal.
+    unfold uint_length in *. destruct (u <=? 127); [discriminate|]. now apply le_val_nbytes.
+Qed.
+
+Lemma int_length_range i : (1 <= int_length i <= 8)%nat.
+Proof. unfold int_length. pose proof (nbytes_le 8 (u64 i)). destruct (nbytes 8 (u64 i)); lia. Qed.
+
+Lemma u64_range i : in_u64 (u64 i).
+Proof. unfold in_u64, u64, uwrap. apply Z.mod_pos_bound. lia. Qed.
+
+Lemma dec_enc_int i rest : in_s64 i -> dec_tok (enc_int i ++ rest) = Some (BI i, rest).
+Proof.
+  intros Hi. unfold enc_int. cbn [app]. rewrite dec_tok_I by apply int_length_range.
+  f_equal. f_equal. f_equal.
+  rewrite le_val_more; [ | apply u64_range | unfold int_length; destruct (nbytes 8 (u64 i)); lia ].
+  unfold u64, s64. rewrite swrap_uwrap by lia. apply swrap_id; [lia|]. unfold in_s, in_s64 in *. cbn. lia.
+Qed.
+
+Definition idx_ok (n : Z) : Prop := 0 <= n < 2 ^ 32.
+
+Lemma idx_length n : idx_ok n -> (1 <= match uint_length n with O => 1 | k => k end <= 4)%nat.
+Proof.
+  intros [H0 H1]. unfold uint_length. destruct (n <=? 127); [lia|].
+  assert (Hb : (nbytes 8 n <= 4)%nat).
+  { (* n < 256^4 *)
+    cbn [nbytes]. destruct (n =? 0); [lia|].
+    assert (n / 256 < 2 ^ 24) by (apply Z.div_lt_upper_bound; lia).
+    destruct (n / 256 =? 0); [lia|].
+    assert (n / 256 / 256 < 2 ^ 16) by (apply Z.div_lt_upper_bound; lia).
+    destruct (n / 256 / 256 =? 0); [lia|].
+    assert (n / 256 / 256 / 256 < 2 ^ 8) by (apply Z.div_lt_upper_bound; lia).
+    destruct (n / 256 / 256 / 256 =? 0); [lia|].
+    assert (E : n / 256 / 256 / 256 / 256 = 0) by (apply Z.div_small; split; [repeat apply Z.div_pos; lia | lia]).
+    rewrite E. cbn. lia. }
+  destruct (nbytes 8 n); lia.
+Qed.
+
+Lemma dec_enc_idx base mk n rest :
+  (base = TAG_REG1 /\ mk = BReg) \/ (base = TAG_NAME1 /\ mk = BName) \/ (base = TAG_STR1 /\ mk = BStr)
+  \/ (base = TAG_LAB1 /\ mk = BLab) ->
+  idx_ok n -> dec_tok (enc_idx base n ++ rest) = Some (mk n, rest).
+Proof.
+  intros Hb Hn. unfold enc_idx. cbn [app].
+  rewrite (dec_tok_idx base mk) by (try exact Hb; now apply idx_length).
+  f_equal. f_equal. f_equal. apply le_val_more.
+  - destruct Hn; split; lia.
+  - unfold uint_length. destruct (Z.leb_spec n 127) as [Hs|Hl].
+    + (* n <= 127: one byte is enough *)
+      cbn [nbytes]. destruct (n =? 0); [lia|].
+      assert (E : n / 256 = 0) by (apply Z.div_small; destruct Hn; lia). rewrite E. cbn. lia.
+    + destruct (nbytes 8 n) eqn:E; [|lia].
+      destruct Hn. pose proof (nbytes_pos 8 n ltac:(lia) ltac:(lia)). lia.
+Qed.
+
+Definition wf_mtype (t : mtype) : Prop := match t with TBLK n => (n < 5)%N | _ => True end.
+
+Definition wf_btok (b : btok) : Prop :=
+  match b with
+  | BU u => in_u64 u
+  | BI i => in_s64 i
+  | BF x => 0 <= x < 2 ^ 32
+  | BD x => 0 <= x < 2 ^ 64
+  | BLD x => 0 <= x < 2 ^ 128
+  | BReg i | BName i | BStr i | BLab i => idx_ok i
+  | BType t => wf_mtype t
+  | BMem _ _ | BEOI | BEOF => True
+  end.
+
+Lemma mtype_num_roundtrip t : wf_mtype t -> mtype_of_num (mtype_num t) = Some t.
+Proof.
+  destruct t as [| | | | | | | | | | | |n|]; try reflexivity. cbn. intros H.
+  assert (E : (n = 0 \/ n = 1 \/ n = 2 \/ n = 3 \/ n = 4)%N) by lia.
+  repeat (destruct E as [E|E]); subst n; reflexivity.
+Qed.
+
+Lemma dec_fixed tag n (mk : Z -> btok) x rest :
+  (tag = TAG_F /\ n = 4%nat /\ mk = BF) \/ (tag = TAG_D /\ n = 8%nat /\ mk = BD) \/ (tag = TAG_LD /\ n = 16%nat /\ mk = BLD) ->
+  dec_tok (tag :: le_bytes n x ++ rest) = Some (mk (le_val (le_bytes n x)), rest).
+Proof.
+  intros [[-> [-> ->]]|[[-> [-> ->]]|[-> [-> ->]]]];
+    unfold dec_tok; cbn -[le_bytes le_val take]; rewrite le_bytes_app_rest; reflexivity.
+Qed.
+
+(* every token kind, every value *)
+Lemma bin_token_roundtrip_lemma b rest : wf_btok b -> dec_tok (enc_tok b ++ rest) = Some (b, rest).
+Proof.
+  destruct b as [u|i|x|x|x|i|i|i|n|k a|t| |]; cbn [wf_btok enc_tok]; intros H.
+  - now apply dec_enc_uint.
+  - now apply dec_enc_int.
+  - cbn [app]. rewrite (dec_fixed TAG_F 4 BF) by tauto. rewrite le_val_le_bytes by lia. now rewrite Z.mod_small by (cbn; lia).
+  - cbn [app]. rewrite (dec_fixed TAG_D 8 BD) by tauto. rewrite le_val_le_bytes by lia. now rewrite Z.mod_small by (cbn; lia).
+  - cbn [app]. rewrite (dec_fixed TAG_LD 16 BLD) by tauto. rewrite le_val_le_bytes by lia. now rewrite Z.mod_small by (cbn; lia).
+  - apply dec_enc_idx; tauto.
+  - apply dec_enc_idx; tauto.
+  - apply dec_enc_idx; tauto.
+  - apply dec_enc_idx; tauto.
+  - destruct k, a; reflexivity.
+  - cbn [app]. unfold dec_tok.
+    assert (Hn : (mtype_num t <= 17)%N).
+    { destruct t; unfold wf_mtype, mtype_num in *; lia. }
+    pose proof (mtype_num_roundtrip t H) as Ht.
+    remember (mtype_num t) as k eqn:Ek.
+    assert (E : (k = 0 \/ k = 1 \/ k = 2 \/ k = 3 \/ k = 4 \/ k = 5 \/ k = 6 \/ k = 7 \/ k = 8 \/ k = 9 \/ k = 10
+                 \/ k = 11 \/ k = 12 \/ k = 13 \/ k = 14 \/ k = 15 \/ k = 16 \/ k = 17)%N) by lia.
+    clear Hn Ek. repeat (destruct E as [E|E]); subst k; cbn in Ht |- *; rewrite ?Ht; try reflexivity;
+      cbn in *; congruence.
+  - reflexivity.
+  - reflexivity.
+Qed.
+
+(* ---------------------------------------------------------------- token lists, string table bytes *)
+
+Definition not_eof (b : btok) : Prop := b <> BEOF.
+
+Lemma dec_toks_roundtrip bs rest fuel :
+  Forall wf_btok bs -> Forall not_eof bs -> (length bs < fuel)%nat ->
+  dec_toks fuel (flat_map enc_tok bs ++ enc_tok BEOF ++ rest) = Some (bs ++ [BEOF], rest).
+Proof.
+  revert fuel; induction bs as [|b bs IH]; intros fuel Hwf Hne Hf.
+  - destruct fuel; [cbn in Hf; lia|]. cbn [flat_map app dec_toks].
+    rewrite (bin_token_roundtrip_lemma BEOF rest I). reflexivity.
+  - destruct fuel; [cbn in Hf; lia|]. cbn [flat_map]. rewrite <- app_assoc. cbn [dec_toks].
+    inversion Hwf as [|? ? Hb Hbs]; subst. inversion Hne as [|? ? Hn Hns]; subst.
+    rewrite (bin_token_roundtrip_lemma b _ Hb).
+    rewrite IH by (try assumption; cbn in Hf; lia).
+    destruct b; try reflexivity. exfalso; now apply Hn.
+Qed.
+
+Definition wf_entry (e : bytes) : Prop := Z.of_nat (length e) < 2 ^ 64.
+
+Lemma dec_strings_roundtrip tbl rest :
+  Forall wf_entry tbl -> dec_strings (length tbl) (enc_strings tbl ++ rest) = Some (tbl, rest).
+Proof.
+  induction tbl as [|e tbl IH]; intros Hwf; [reflexivity|].
+  inversion Hwf as [|? ? He Ht]; subst.
+  cbn [length dec_strings enc_strings flat_map]. fold (enc_strings tbl).
+  rewrite <- !app_assoc. unfold dec_uint.
+  rewrite dec_enc_uint by (unfold in_u64, wf_entry in *; lia).
+  rewrite Nat2Z.id, take_app. now rewrite IH.
+Qed.
+
+(* ---------------------------------------------------------------- layer B: the string table *)
+
+Lemma bytes_eqb_eq a b : bytes_eqb a b = true <-> a = b.
+Proof.
+  revert b; induction a as [|x a IH]; intros [|y b]; cbn [bytes_eqb]; try (split; congruence).
+  rewrite andb_true_iff, N.eqb_eq, IH. split; [intros [-> ->]; reflexivity | intros E; inversion E; auto].
+Qed.
+
+Lemma bytes_eqb_refl a : bytes_eqb a a = true.
+Proof. now apply bytes_eqb_eq. Qed.
+
+Lemma in_tbl_In e tbl : in_tbl e tbl = true <-> In e tbl.
+Proof.
+  unfold in_tbl. rewrite existsb_exists. split.
+  - intros [x [Hx He]]. apply bytes_eqb_eq in He. now subst.
+  - intros H. exists e. split; [assumption | apply bytes_eqb_refl].
+Qed.
+
+Lemma collect_from_ext tbl ts : exists ext, collect_from tbl ts = tbl ++ ext.
+Proof.
+  revert tbl; induction ts as [|t ts IH]; intros tbl; cbn [collect_from].
+  - exists []. now rewrite app_nil_r.
+  - destruct (entry_of t) as [e|]; [|apply IH].
+    destruct (in_tbl e tbl); [apply IH|].
+    destruct (IH (tbl ++ [e])) as [ext E]. exists ([e] ++ ext). now rewrite E, <- app_assoc.
+Qed.
+
+(* pass 2 finds every string pass 1 stored *)
+Lemma collect_from_complete tbl ts t e :
+  In t ts -> entry_of t = Some e -> In e (collect_from tbl ts).
+Proof.
+  revert tbl; induction ts as [|t0 ts IH]; intros tbl Hin He; [contradiction|].
+  cbn [collect_from]. destruct Hin as [->|Hin].
+  - rewrite He. destruct (in_tbl e tbl) eqn:Ei.
+    + destruct (collect_from_ext tbl ts) as [ext ->]. apply in_or_app. left. now apply in_tbl_In.
+    + destruct (collect_from_ext (tbl ++ [e]) ts) as [ext ->]. apply in_or_app. left. apply in_or_app. right. now left.
+  - destruct (entry_of t0) as [e0|]; [|now apply IH].
+    destruct (in_tbl e0 tbl); now apply IH.
+Qed.
+
+Lemma index_of_nth e tbl : In e tbl -> nth_error tbl (index_of e tbl) = Some e.
+Proof.
+  induction tbl as [|x tbl IH]; intros Hin; [contradiction|].
+  cbn [index_of]. destruct (bytes_eqb x e) eqn:E.
+  - apply bytes_eqb_eq in E. now subst.
+  - cbn [nth_error]. apply IH. destruct Hin as [->|H]; [now rewrite bytes_eqb_refl in E | assumption].
+Qed.
+
+Lemma index_of_lt e tbl : In e tbl -> (index_of e tbl < length tbl)%nat.
+Proof.
+  induction tbl as [|x tbl IH]; intros Hin; [contradiction|].
+  cbn [index_of length]. destruct (bytes_eqb x e) eqn:E; [lia|].
+  assert (In e tbl) by (destruct Hin as [->|H]; [now rewrite bytes_eqb_refl in E | assumption]).
+  specialize (IH H). lia.
+Qed.
+
+Definition no_nul (s : bytes) : Prop := Forall (fun c => c <> 0%N) s.
+
+Lemma cstr_app_nul s : no_nul s -> cstr (s ++ [0%N]) = s.
+Proof.
+  induction s as [|c s IH]; intros H; [reflexivity|].
+  inversion H as [|? ? Hc Hs]; subst. cbn [app cstr].
+  destruct (N.eqb_spec c 0); [contradiction|]. now rewrite IH.
+Qed.
+
+Definition wf_stok (t : stok) : Prop :=
+  match t with
+  | SU u => in_u64 u
+  | SI i => in_s64 i
+  | SF x => 0 <= x < 2 ^ 32
+  | SD x => 0 <= x < 2 ^ 64
+  | SLD x => 0 <= x < 2 ^ 80
+  | SReg s | SName s => no_nul s
+  | SStr _ => True
+  | SLab n => idx_ok n
+  | SType t => wf_mtype t
+  | SMem _ _ | SEOI => True
+  | SEOF => False                       (* never written inside the token stream *)
+  end.
+
+Lemma resolve_index_tok tbl t :
+  wf_stok t -> (forall e, entry_of t = Some e -> In e tbl) -> resolve_tok tbl (index_tok tbl t) = Some t.
+Proof.
+  intros Hwf Hin. destruct t as [u|i|x|x|x|s|s|s|n|k a|t| |]; cbn [index_tok resolve_tok]; try reflexivity.
+  - cbn [wf_stok] in Hwf. unfold two80. now rewrite Z.mod_small by lia.
+  - unfold idx. rewrite Nat2Z.id, index_of_nth by (apply Hin; reflexivity). now rewrite cstr_app_nul.
+  - unfold idx. rewrite Nat2Z.id, index_of_nth by (apply Hin; reflexivity). now rewrite cstr_app_nul.
+  - unfold idx. rewrite Nat2Z.id, index_of_nth by (apply Hin; reflexivity). reflexivity.
+Qed.
+
+Lemma wf_index_tok tbl t :
+  wf_stok t -> (forall e, entry_of t = Some e -> In e tbl) -> Z.of_nat (length tbl) < 2 ^ 32 ->
+  wf_btok (index_tok tbl t).
+Proof.
+  intros Hwf Hin Hlen. destruct t as [u|i|x|x|x|s|s|s|n|k a|t| |]; cbn [index_tok wf_btok wf_stok] in *; try assumption; try lia.
+  all: unfold idx_ok, idx; match goal with |- context [index_of ?e ?tb] =>
+         pose proof (index_of_lt e tb (Hin _ eq_refl)) end; lia.
+Qed.
+
+Lemma resolve_all_index tbl ts :
+  Forall wf_stok ts -> (forall t e, In t ts -> entry_of t = Some e -> In e tbl) ->
+  resolve_all tbl (map (index_tok tbl) ts) = Some ts.
+Proof.
+  induction ts as [|t ts IH]; intros Hwf Hin; [reflexivity|].
+  inversion Hwf as [|? ? Ht Hts]; subst. cbn [map resolve_all].
+  assert (H1 : forall e, entry_of t = Some e -> In e tbl) by (intros e He; apply (Hin t e); [now left | exact He]).
+  assert (H2 : forall t' e, In t' ts -> entry_of t' = Some e -> In e tbl) by (intros t' e Ht' He; apply (Hin t' e); [now right | exact He]).
+  rewrite (resolve_index_tok tbl t Ht H1), (IH Hts H2). reflexivity.
+Qed.
+
+Lemma bin_string_table_complete_lemma ts t e :
+  In t ts -> entry_of t = Some e -> In e (collect ts).
+Proof. apply collect_from_complete. Qed.
